@@ -32,6 +32,9 @@ def work_faults(chunk, st):
 
 
 # ---- rate-phase behaviours
+RATE_ALPHABET = ['normal', 'close', 'exceeded', 'refuse', 'silent']
+
+
 def rate_server(beh, kexes, nkeys):
     keys = ['ssh-ed25519', 'rsa-sha2-512', 'ecdsa-sha2-nistp256'][:nkeys]
     pre = 1 + len(keys) + 9 * len([k for k in kexes if 'group-exchange' in k])
@@ -47,6 +50,9 @@ def rate_server(beh, kexes, nkeys):
         # cannot tell them apart up front - switch behaviour once the probes are over (decided by the harness below)
         if not state['audit_done']:
             return 'normal'
+        if isinstance(beh, tuple):          # a repeating pattern of per-connection answers
+            state['n'] = state.get('n', -1) + 1
+            return beh[state['n'] % len(beh)]
         return {'refuse-async': 'refuse'}.get(beh, beh)
     srv.conn_behaviour = conn_behaviour
     srv._state = state
@@ -95,13 +101,14 @@ def work_rate(chunk, st):
     for beh, kexes, nkeys, mode, latency in chunk:
         res, srv = run_rate(beh, list(kexes), nkeys, mode, latency)
         w = res.world
-        detail = {'rate_behaviour': beh, 'kex': list(kexes), 'host_keys': nkeys, 'mode': mode, 'select_latency': latency}
-        st.execution(w, outcome=(beh, mode, res.status, min(len(w.conns), 99)), root=(beh, kexes, nkeys, mode, latency), nontrivial=(beh, kexes, nkeys, mode, latency))
+        detail = {'rate_behaviour': beh if isinstance(beh, str) else list(beh), 'kex': list(kexes), 'host_keys': nkeys, 'mode': mode, 'select_latency': latency}
+        btag = beh if isinstance(beh, str) else 'pattern'
+        st.execution(w, outcome=(btag, mode, res.status, min(len(w.conns), 99)), root=(beh, kexes, nkeys, mode, latency), nontrivial=(beh, kexes, nkeys, mode, latency))
         if res.hang:
-            st.violation('rate:%s:hang' % beh, dict(detail, hang=res.hang, connections=len(w.conns)))
+            st.violation('rate:%s:hang' % btag, dict(detail, hang=res.hang, connections=len(w.conns)))
             continue
         if res.exc or res.status not in (0, 2, 3):
-            st.violation('rate:%s:status-%s' % (beh, res.status), dict(detail, exc=res.exc, stdout=res.stdout[-300:]))
+            st.violation('rate:%s:status-%s' % (btag, res.status), dict(detail, exc=res.exc, stdout=res.stdout[-300:]))
             continue
         dh = any(k.startswith('diffie-hellman') or k.startswith('curve25519') or k.startswith('ecdh') for k in kexes)
         # split the connection log at the first non-blocking socket
@@ -110,14 +117,14 @@ def work_rate(chunk, st):
         gexn = len([k for k in kexes if 'group-exchange' in k])
         cap_audit = 1 + nkeys + 9 * gexn
         if len(audit_conns) > cap_audit:
-            st.violation('rate:%s:too-many-audit-connections' % beh, dict(detail, n=len(audit_conns), cap=cap_audit))
+            st.violation('rate:%s:too-many-audit-connections' % btag, dict(detail, n=len(audit_conns), cap=cap_audit))
         if mode == 'skip':
             if rate_conns:
-                st.violation('rate:%s:rate-check-ran-although-skipped' % beh, dict(detail, n=len(rate_conns)))
+                st.violation('rate:%s:rate-check-ran-although-skipped' % btag, dict(detail, n=len(rate_conns)))
         else:
             # "at most a few dozen short-lived ones": 38 completed + 3 in flight, and attempts bounded likewise
             if len(rate_conns) > 38 + 3 + 3:
-                st.violation('rate:%s:too-many-rate-connections' % beh, dict(detail, n=len(rate_conns)))
+                st.violation('rate:%s:too-many-rate-connections' % btag, dict(detail, n=len(rate_conns)))
         live, peak = set(), 0
         for ev in w.log:
             if ev[0] == 'established':
@@ -126,16 +133,16 @@ def work_rate(chunk, st):
             elif ev[0] == 'close':
                 live.discard(ev[1])
         if peak > 3:
-            st.violation('rate:%s:too-many-concurrent' % beh, dict(detail, peak=peak))
+            st.violation('rate:%s:too-many-concurrent' % btag, dict(detail, peak=peak))
         gc.collect()
         leaked = [s.fd for s in w.sockets if not s.closed]
         if leaked:
-            st.violation('rate:%s:socket-left-open' % beh, dict(detail, n=len(leaked)))
+            st.violation('rate:%s:socket-left-open' % btag, dict(detail, n=len(leaked)))
         for r in srv.records:
             if r['index'] >= len(audit_conns) and r.get('packets_in'):
-                st.violation('rate:%s:data-sent-on-rate-connection' % beh, dict(detail, conn=r['index']))
+                st.violation('rate:%s:data-sent-on-rate-connection' % btag, dict(detail, conn=r['index']))
         if res.clock > 5.0 * (len(audit_conns) + 2) + 2.5:
-            st.violation('rate:%s:too-slow' % beh, dict(detail, clock=res.clock))
+            st.violation('rate:%s:too-slow' % btag, dict(detail, clock=res.clock))
         st.sample(dict(detail, audit_connections=len(audit_conns), rate_connections=len(rate_conns), peak_concurrent=peak), cap=10)
 
 
@@ -179,6 +186,15 @@ def run(tier, seed):
                 for mode in ('standard', 'policy', 'make', 'skip'):
                     for latency in ((0.01, 0.05, 0.2) if tier != 'quick' else (0.01, 0.1)):
                         rate_tasks.append((beh, kexes, nkeys, mode, latency))
+    import itertools as _it
+    for n in (2, 3):
+        for pat in _it.product(RATE_ALPHABET, repeat=n):
+            if len(set(pat)) < 2:
+                continue
+            if tier == 'quick' and n == 3 and pat[0] != 'normal':
+                continue
+            for latency in ((0.01,) if tier == 'quick' else (0.01, 0.05)):
+                rate_tasks.append((pat, ('curve25519-sha256',), 1, 'standard', latency))
     par.pmap(work_rate, rate_tasks, stats=st)
     check_no_dos_without_option(st)
     vcases = []
@@ -190,7 +206,8 @@ def run(tier, seed):
     return evidence.finish(
         PID, tier, seed, st, t0,
         rule='connection-log monitor over: (a) the C09 fault space (every archetype, %s faults, with the rate check skipped; message-level close/stall/'
-             'reset/refuse faults again with the rate check on for B, C, D1); (b) rate-phase behaviours %s x 3 kex sets x {1,3} host keys x {standard, '
+             'reset/refuse faults again with the rate check on for B, C, D1); (b) rate-phase behaviours %s (and every repeating pattern of 2-3 different '
+             'per-connection answers over {banner, close, MaxStartups, refuse, silent}) x 3 kex sets x {1,3} host keys x {standard, '
              '-P, -M, --skip-rate-test} x select latencies; (c) ordinary option sets never produce a flood pattern. Bounds: connections <= initial + '
              'probed host-key types + 9 per GEX algorithm (+ 38 completed, 3 concurrent for the rate check; 0 when skipped or no DH kex), key-exchange '
              'requests only on probe connections and one exchange per connection, every socket closed at exit' % (
@@ -204,7 +221,8 @@ def replay(path):
     d = v['detail']
     st = evidence.Stats()
     if 'rate_behaviour' in d:
-        work_rate([(d['rate_behaviour'], tuple(d['kex']), d['host_keys'], d['mode'], d['select_latency'])], st)
+        rb = d['rate_behaviour']
+        work_rate([(tuple(rb) if isinstance(rb, list) else rb, tuple(d['kex']), d['host_keys'], d['mode'], d['select_latency'])], st)
     else:
         work_faults([(d['arch'], d['short'], d['plan'], d['rate'])], st)
     for x in st.violations:
